@@ -4,5 +4,5 @@ out="$1"; p="$2"; shift 2
 for m in 1 2 3; do
   [ -d "$out/$p/$m" ] || continue
   echo "##### $p #$m"
-  /verif/tools/mutcheck.sh "$out/$p/$m" "$p" quick 2>&1 | cut -c1-230 | grep -v "^C[0-9][0-9] quick\|^HELD\|^VIOLATION"
+  /verif/tools/mutcheck.sh "$out/$p/$m" "$p" quick ${SCR:-/tmp/scr} 2>&1 | cut -c1-230 | grep -v "^C[0-9][0-9] quick\|^HELD\|^VIOLATION"
 done
